@@ -293,6 +293,11 @@ def judge(ctx, runner, misses, all_ds=frozenset()):
         else:
             dict(transient=transient, unreproduced=unreproduced, inconclusive=inconclusive)[verdict].append(info)
 
+    # a child that is still alive after its subtest and RunT have returned is a fact the driver saw with its own eyes (the
+    # process table, by command line): no machine is slow enough to produce it, it needs no second look
+    for it in todo:
+        if "HNoChildLeft" in it["laws"] and not it["rec"]["hung"]:
+            it["repro"]["HNoChildLeft"] += 1
     rerun(todo, lambda it: 3, par=8)
     second = []
     for it in todo:
